@@ -813,7 +813,11 @@ def oracle_unary(r):
         lab["stabilizer_really"] = really
         if hs and not really:
             raise Violation(f"has_stabilizer_effect({gr[0]}, wrap={r['wrap']}) is True but U P U^dagger is not a Pauli string for some generator{detail}")
-        if n == 1 and not hs and really and _strictly_clifford(u):
+        # converse only where the gate's parameters are the recipe's own values (or an exact binary multiple of them): Cirq's
+        # closed forms test `exponent % 0.5 == 0` exactly, so exponents manufactured by float arithmetic (angle/pi of a controlled
+        # global phase, e * 1.5) may legitimately miss by one ulp
+        exact_params = r["wrap"] in ("none", "op") or (r["wrap"] == "pow" and r["t"] != 1.5)
+        if n == 1 and not hs and really and exact_params and _strictly_clifford(u):
             # "For 1-qubit gates always returns correct result"
             raise Violation(f"has_stabilizer_effect({gr[0]}, wrap={r['wrap']}) is False for a 1-qubit Clifford matrix{detail}")
     # trace_distance_bound
